@@ -108,11 +108,97 @@ pub fn run_weak(rep: &Report, n: usize) {
     rep.sample(json!({"scope": "weak form", "claims": creds[4].0, "strategy": creds[4].1.to_json(), "a_selection": sels[sels.len() / 3]}));
 }
 
+/// One holder instance serves every selection of a credential in turn, key binding alternately
+/// requested and not: each presentation must still carry exactly its own disclosures and a KB-JWT
+/// only when this call asked for one.
+pub fn reused_holder_case(cred: &pipeline::Cred, sels: &[Map<String, Value>], l: &mut Local) {
+    let cfg = &cred.cfg;
+    let Out::Ok(mut holder) = drive::holder_new(&cred.issued, cfg.fmt) else { return };
+    for (i, sel) in sels.iter().enumerate() {
+        l.evals += 1;
+        let want_kb = i % 2 == 0;
+        let kb = if want_kb { pipeline::kb_args(cfg) } else { drive::KbArgs::none() };
+        let out = drive::present(&mut holder, sel, &kb);
+        let mk = |class: &str, site: &str, detail: String| {
+            let mut case = pipeline::case_json("reused_holder", &cred.u, &cred.strat, cfg, None);
+            case["selections"] = Value::Array(sels[..=i].iter().map(|m| Value::Object(m.clone())).collect());
+            Violation::new("present", class, site, if want_kb { "kb_requested" } else { "kb_not_requested" }, detail, case)
+        };
+        match out {
+            Out::Ok(p) => {
+                let Ok(pp) = pipeline::parse_output(&p, cfg.fmt) else {
+                    l.violation(mk("malformed_output", "c06r_framing", p));
+                    return;
+                };
+                let (_, exp) = pipeline::expected_disclosures(cred, sel);
+                let mut got = pp.disclosures.clone();
+                got.sort();
+                if got != exp {
+                    l.violation(mk("wrong_disclosures", "c06r_disclosure_multiset", format!("call {}: {} presented, {} expected", i + 1, got.len(), exp.len())));
+                    return;
+                }
+                if pp.kb.is_some() != want_kb {
+                    l.violation(mk("wrong_kb", "c06r_kb_presence", format!("call {}: kb present={} requested={}", i + 1, pp.kb.is_some(), want_kb)));
+                    return;
+                }
+                if pp.jwt != cred.parts.jwt {
+                    l.violation(mk("wrong_jwt", "c06r_jwt", String::new()));
+                    return;
+                }
+                if i > 0 {
+                    l.nontrivial += 1;
+                }
+            }
+            Out::Err { .. } => {
+                l.violation(mk("err_where_ok_required", "c06r_err", format!("call {}", i + 1)));
+                return;
+            }
+            Out::Panic { site, msg } => {
+                l.violation(mk("panic", &site, msg));
+                return;
+            }
+        }
+    }
+}
+
+fn run_reused(rep: &Report) {
+    let ts = super::common::trees(3, 3);
+    let mut items = vec![];
+    for (ti, t) in ts.iter().enumerate() {
+        for s in pipeline::all_strategies(t) {
+            for fmt in crate::codec::FMTS {
+                items.push((ti, s.clone(), fmt));
+            }
+        }
+    }
+    let before = rep.evals();
+    par_for(rep, items.len(), |i, l| {
+        let (ti, s, fmt) = &items[i];
+        let cfg = Cfg { fmt: *fmt, alg: Alg::HS256, decoys: i % 2 == 1, hk: Hk::Es };
+        let Some(cred) = pipeline::issue_checked(&ts[*ti], s, &cfg, Checks::default(), "C06", l) else { return };
+        let sels = gen::selections_coarse(&ts[*ti]);
+        reused_holder_case(&cred, &sels, l);
+    });
+    rep.scope_done(json!({"scope": "one reused holder per credential: S(3,3) x all strategies x 2 formats, every (coarse) selection in turn with key binding alternately on/off", "credentials": items.len(), "evaluations": rep.evals() - before}));
+}
+
 pub fn run(rep: &Report) {
     rep.set_rule("strong form: (claim tree, strategy, configuration, type-consistent selection) enumerated completely per scope, presentation decoded by the harness codec and compared with the expected disclosure multiset; weak form: every selector JSON up to a node bound; non-trivial = presented hidden set a proper non-empty subset of H; distinct by (claims, strategy, configuration, D)");
     rep.assume("jsonwebtoken/ring/serde_json/base64/sha2 are correct");
     super::c01::scopes(rep, Checks { c06: true, ..Default::default() });
     run_weak(rep, if rep.quick() { 3 } else { 4 });
+    run_reused(rep);
+}
+
+pub fn replay_reused(case: &Value) -> Vec<Violation> {
+    let mut l = Local::default();
+    let strat = Strat::from_json(&case["strategy"]);
+    let cfg = Cfg::from_json(&case["cfg"]);
+    if let Some(cred) = pipeline::issue_checked(&case["claims"], &strat, &cfg, Checks::default(), "C06", &mut l) {
+        let sels: Vec<Map<String, Value>> = case["selections"].as_array().unwrap().iter().map(|x| x.as_object().unwrap().clone()).collect();
+        reused_holder_case(&cred, &sels, &mut l);
+    }
+    l.violations()
 }
 
 pub fn replay_weak(case: &Value) -> Vec<Violation> {
